@@ -11,7 +11,7 @@ use std::sync::Mutex;
 use std::sync::atomic::{AtomicU64, Ordering};
 use vcore::run::{Run, guarded, machinery_failure, spaced_samples};
 
-const DECLS: &str = "class B2(T, F) {}\nclass E3(X, Y(B2), Z(B2, B2)) {}\nclass R(Nil, Cons(B2, R)) {}\nclass S(val a: B2, val b: B2) {}\nclass W(P(S), Q) {}\nclass Opt<A>(None, Some(A)) {}\nclass U1(Only) {}\nclass N1(Wrap(B2)) {}\nclass N2(Both(N1, U1)) {}\n";
+const DECLS: &str = "class B2(T, F) {}\nclass E3(X, Y(B2), Z(B2, B2)) {}\nclass R(Nil, Cons(B2, R)) {}\nclass S(val a: B2, val b: B2) {}\nclass W(P(S), Q) {}\nclass Opt<A>(None, Some(A)) {}\nclass U1(Only) {}\nclass N1(Wrap(B2)) {}\nclass N2(Both(N1, U1)) {}\nclass Wide16(val f0: Pair<B2, B2>, val f1: B2, val f2: B2, val f3: B2, val f4: B2, val f5: B2, val f6: B2, val f7: B2, val f8: B2, val f9: B2, val f10: B2, val f11: B2, val f12: B2, val f13: B2, val f14: B2, val f15: B2) {}\nclass Wide16L(val f0: B2, val f1: B2, val f2: B2, val f3: B2, val f4: B2, val f5: B2, val f6: B2, val f7: B2, val f8: B2, val f9: B2, val f10: B2, val f11: B2, val f12: B2, val f13: B2, val f14: B2, val f15: Pair<B2, B2>) {}\nclass Wide9(val f0: Pair<B2, B2>, val f1: B2, val f2: B2, val f3: B2, val f4: B2, val f5: B2, val f6: B2, val f7: B2, val f8: B2) {}\n";
 
 #[derive(Clone, Debug, PartialEq, Eq, Hash, PartialOrd, Ord)]
 enum Ty {
@@ -29,6 +29,11 @@ enum Ty {
   N1,
   N2,
   TupN1N1,
+  /// structs at the 16-field cap with one pair-typed field: specialisation flattens nested
+  /// sub-patterns into more than 16 columns
+  Wide16,
+  Wide16L,
+  Wide9,
 }
 
 impl Ty {
@@ -47,6 +52,9 @@ impl Ty {
       Ty::N1 => "N1",
       Ty::N2 => "N2",
       Ty::TupN1N1 => "Pair<N1, N1>",
+      Ty::Wide16 => "Wide16",
+      Ty::Wide16L => "Wide16L",
+      Ty::Wide9 => "Wide9",
     }
   }
   /// variants (name, payload types) for enums
@@ -71,11 +79,14 @@ impl Ty {
       Ty::TupBB => vec![Ty::B2, Ty::B2],
       Ty::TupBE => vec![Ty::B2, Ty::E3],
       Ty::TupN1N1 => vec![Ty::N1, Ty::N1],
+      Ty::Wide16 => std::iter::once(Ty::TupBB).chain(std::iter::repeat(Ty::B2).take(15)).collect(),
+      Ty::Wide16L => std::iter::repeat(Ty::B2).take(15).chain(std::iter::once(Ty::TupBB)).collect(),
+      Ty::Wide9 => std::iter::once(Ty::TupBB).chain(std::iter::repeat(Ty::B2).take(8)).collect(),
       _ => return None,
     })
   }
   fn is_struct(&self) -> bool {
-    matches!(self, Ty::S)
+    matches!(self, Ty::S | Ty::Wide16 | Ty::Wide16L | Ty::Wide9)
   }
 }
 
@@ -112,9 +123,15 @@ fn values(ty: &Ty, depth: usize) -> Vec<Val> {
     out
   } else {
     let comps = ty.components().unwrap();
+    let wide = comps.len() > 2;
     let mut acc: Vec<Vec<Val>> = vec![vec![]];
-    for t in &comps {
-      let vals = values(t, depth);
+    for (ci, t) in comps.iter().enumerate() {
+      let mut vals = values(t, depth);
+      // wide structs: only the pair-typed field and its two neighbours vary (the generated
+      // patterns leave every other field a wildcard)
+      if wide && *t == Ty::B2 && !(ci <= 2 || ci + 3 >= comps.len()) {
+        vals.truncate(1);
+      }
       acc = acc.into_iter().flat_map(|p| vals.iter().map(move |v| { let mut q = p.clone(); q.push(v.clone()); q })).collect();
     }
     acc.into_iter().map(Val::Product).collect()
@@ -146,10 +163,11 @@ fn render(p: &Pat, ty: &Ty) -> String {
     }
     Pat::Product(true, ps) => {
       let comps = ty.components().unwrap();
-      let names = ["a", "b"];
+      let wide = comps.len() > 2;
+      let name = |i: usize| if wide { format!("f{i}") } else { ["a", "b"][i].to_string() };
       format!(
         "{{ {} }}",
-        ps.iter().zip(&comps).enumerate().map(|(i, (p, t))| format!("{} as {}", names[i], render(p, t))).collect::<Vec<_>>().join(", ")
+        ps.iter().zip(&comps).enumerate().map(|(i, (p, t))| format!("{} as {}", name(i), render(p, t))).collect::<Vec<_>>().join(", ")
       )
     }
     Pat::Product(false, ps) => {
@@ -337,7 +355,7 @@ impl Case {
   }
 }
 
-const HEADER_LINES: usize = 11; // import line + DECLS (9) + "class Main {"
+const HEADER_LINES: usize = 14; // import line + DECLS (12) + "class Main {"
 
 fn module_text(cases: &[Case]) -> String {
   let mut s = String::from("import { Pair } from std.tuples\n");
@@ -408,6 +426,7 @@ fn main() {
   let run = Run::from_args("C07", "exploration");
   let max_arms = if run.quick() { 3 } else { 4 };
   let types = [Ty::B2, Ty::E3, Ty::R, Ty::S, Ty::W, Ty::OptB2, Ty::OptOptB2, Ty::TupBB, Ty::TupBE, Ty::U1, Ty::N1, Ty::N2, Ty::TupN1N1];
+  let wide_types = [Ty::Wide16, Ty::Wide16L, Ty::Wide9];
   if let Some(path) = run.replay.clone() {
     let text = std::fs::read_to_string(&path).unwrap_or_else(|e| machinery_failure(&format!("{e}")));
     let v: Value = serde_json::from_str(&text).unwrap_or_else(|e| machinery_failure(&format!("{e}")));
@@ -445,6 +464,9 @@ fn main() {
       cases.push(Case { ty: ty.clone(), kind: Kind::Let(p.clone()) });
       cases.push(Case { ty: ty.clone(), kind: Kind::IfLet(p.clone()) });
     }
+    if matches!(ty, Ty::Wide16 | Ty::Wide16L | Ty::Wide9) {
+      continue;
+    }
     // same-head or-patterns: alone (let / if-let / single arm) and in arm lists with shallow patterns
     let same = same_head_or_patterns(ty);
     space.insert(format!("same_head_or_patterns_for_{}", ty.text()), json!(same.len()));
@@ -471,8 +493,49 @@ fn main() {
       }
     }
   }
+  // wide structs: arm lists over the sub-patterns of the pair-typed field (and one neighbour)
+  for ty in [Ty::Wide16, Ty::Wide16L, Ty::Wide9] {
+    let comps = ty.components().unwrap();
+    let pair_at = comps.iter().position(|t| *t == Ty::TupBB).unwrap();
+    let neighbour = if pair_at == 0 { 1 } else { pair_at - 1 };
+    let b = |n: &'static str| Pat::Variant(n, vec![]);
+    let pair_pats: Vec<Pat> = vec![
+      Pat::Wild,
+      Pat::Product(false, vec![b("T"), b("T")]),
+      Pat::Product(false, vec![b("T"), b("F")]),
+      Pat::Product(false, vec![b("F"), b("T")]),
+      Pat::Product(false, vec![b("F"), b("F")]),
+      Pat::Product(false, vec![b("T"), Pat::Wild]),
+      Pat::Product(false, vec![Pat::Wild, b("F")]),
+    ];
+    let mut rows: Vec<Pat> = vec![];
+    for pp in &pair_pats {
+      for np in [Pat::Wild, b("T"), b("F")] {
+        let mut fields = vec![Pat::Wild; comps.len()];
+        fields[pair_at] = pp.clone();
+        fields[neighbour] = np;
+        rows.push(Pat::Product(true, fields));
+      }
+    }
+    space.insert(format!("wide_rows_for_{}", ty.text()), json!(rows.len()));
+    for r in &rows {
+      cases.push(Case { ty: ty.clone(), kind: Kind::Let(r.clone()) });
+      cases.push(Case { ty: ty.clone(), kind: Kind::IfLet(r.clone()) });
+      cases.push(Case { ty: ty.clone(), kind: Kind::Match(vec![r.clone()]) });
+    }
+    for a in &rows {
+      for c in &rows {
+        cases.push(Case { ty: ty.clone(), kind: Kind::Match(vec![a.clone(), c.clone()]) });
+        if !run.quick() || ty == Ty::Wide16 {
+          for d in rows.iter().step_by(if run.quick() { 4 } else { 1 }) {
+            cases.push(Case { ty: ty.clone(), kind: Kind::Match(vec![a.clone(), c.clone(), d.clone()]) });
+          }
+        }
+      }
+    }
+  }
   space.insert("total_cases".into(), json!(cases.len()));
-  let value_cache: HashMap<Ty, Vec<Val>> = types.iter().map(|t| (t.clone(), values(t, 4))).collect();
+  let value_cache: HashMap<Ty, Vec<Val>> = types.iter().chain(wide_types.iter()).map(|t| (t.clone(), values(t, 4))).collect();
   let evaluated = AtomicU64::new(0);
   let rejected = AtomicU64::new(0);
   let universal_failures = AtomicU64::new(0);
